@@ -119,7 +119,7 @@ func c07(c *q.Ctx) {
 		c.Guard(vs, q.Cond{Canon: "(len(p1.AuthRequire) == len(p1.AuthRequireSigns))", Sense: false}, q.ToSuccess(), q.Opt{Unless: []q.Cond{{Canon: "(nil == p1.XuperSign)", Sense: false}}})
 		c.Effect(vs, q.Eff{Spec: "utils::IdentifyAK", Arg: 0, Glob: "p1.Initiator", Req: []q.Cond{{Canon: "(0 == utils.IsAccount(p1.Initiator))", Sense: true}}, Why: "an address initiator must sign", Rule: "K2"})
 		c.Effect(vs, q.Eff{Spec: "utils::IdentifyAK", Arg: 2, Glob: "p2", Why: "over the digest passed in", Rule: "K11"})
-		c.Effect(vs, q.Eff{Spec: "utils::IdentifyAK", Arg: 0, Glob: "strings.Split(p1.AuthRequire[],\"/\")[]", Req: []q.Cond{{Canon: "has(newmap<map[string]bool>,strings.Split(p1.AuthRequire[],\"/\")[])", Sense: false}}, Why: "every AuthRequire entry not already verified must sign", Rule: "K2"})
+		c.Effect(vs, q.Eff{Spec: "utils::IdentifyAK", Arg: 0, Glob: "strings.Split(p1.AuthRequire[],\"/\")[last]", Req: []q.Cond{{Canon: "has(newmap<map[string]bool>,strings.Split(p1.AuthRequire[],\"/\")[last])", Sense: false}}, Why: "every AuthRequire entry not already verified must sign", Rule: "K2"})
 		c.Effect(vs, q.Eff{Spec: "utils::IdentifyAK", Arg: 1, Glob: "p1.AuthRequireSigns[]", Why: "with the signature at the same index", Rule: "K11"})
 		for _, ci := range q.CallsIn(vs, "utils::IdentifyAK") {
 			c.Check(q.Canon(ci.Common().Args[2]) == "p2", "K11", st+"(*State).verifySignatures", "IdentifyAK verifies over the digest parameter", c.At(ci), "")
